@@ -45,6 +45,9 @@ MoveAssign(d, s) == /\ IsLive(pool, d) /\ IsLive(pool, s)
                     /\ act' = A("moveassign", d, s, "-", "move")
 SetTo(d, c, f) == /\ IsLive(pool, d) /\ pool' = [pool EXCEPT ![d] = Mk(d, c, d)]
                   /\ act' = A("set:" \o f, d, 0, c, "write")
+(* assignment / set / += whose argument points INTO the target's own storage (s = s.c_str() + k, ...) *)
+SelfSet(d, f) == /\ IsLive(pool, d) /\ pool' = [pool EXCEPT ![d] = Mk(d, "R", d)]
+                 /\ act' = A("selfset:" \o f, d, 0, "-", "write")
 AppendFrom(d, s) == /\ IsLive(pool, d) /\ IsLive(pool, s)
                     /\ pool' = [pool EXCEPT ![d] = Mk(d, "R", d)]
                     /\ act' = A("append", d, s, "-", "write")
@@ -83,6 +86,7 @@ Next ==
                            \/ AppendFrom(d, s) \/ FaultCopy(d, s)
     \/ \E d \in Slots, c \in Classes, f \in SetForms : SetTo(d, c, f) \/ ThrowSet(d, c, f) \/ FaultSet(d, c, f, 1)
     \/ \E d \in Slots : Clear(d) \/ Destroy(d)
+    \/ \E d \in Slots, f \in {"suffix", "prefix", "view", "appendself"} : SelfSet(d, f)
     \/ \E s \in Slots, op \in ConstOps, k \in Slots \cup {0} : ConstOp(s, op, k)
     \/ \E s \in Slots, op \in ConstOps, j \in 1..2 : FaultConst(s, op, j)
     \/ \E d, s \in Slots, j \in 1..2 : FaultAppend(d, s, j)
